@@ -154,4 +154,12 @@ theorem C08_profile_names_only_asked_and_vouched_groups (allowed : List String) 
           simp only [List.mem_filter] at hg
           exact ⟨hg.1, us, rfl, by simpa using hg.2⟩
 
+/-- Tie (T1), second wave: helpers, stores and second callers on this property's path (auth_GetProfile, okta_ValidateGroupMembership) — call/branch/store skeletons
+regenerated from the source on every run against the expectations frozen here. -/
+theorem C08_wiring2 :
+    Sso.Generated.skel_auth_GetProfile =
+      ["call:FormValue", "if{", "call:Error", "return", "}", "call:Get", "if{", "}", "call:FormValue", "if{", "call:Split", "}", "call:ValidateGroupMembership", "if{", "call:Error", "call:codeForError", "call:ErrorResponse", "return", "}", "call:Marshal", "if{", "call:Error", "call:Sprintf", "call:Error", "return", "}", "call:Header", "call:Set", "call:Header", "call:Set", "call:Write"] ∧
+    Sso.Generated.skel_okta_ValidateGroupMembership =
+      ["if{", "return", "}", "call:len", "if{", "return", "}", "call:GetUserProfile", "if{", "return", "}", "call:len", "if{", "call:New", "return", "}", "range{", "range{", "if{", "call:append", "break", "}", "}", "}", "return"] := by decide
+
 end Sso.AuthN
